@@ -421,6 +421,7 @@ WITNESSES = [
     ("b_wna_noise 1 3", "wna_noise"), ("b_wna_noise 3 2", "wna_noise"),                            # fixed by d63c821
     ("b_lm 4 1 1 2 1 2", "lm"), ("b_lm 4 3 3 2 3 0 1 3", "lm"),                                    # fixed by f96e245
     ("b_utmm 1 2 2 0 0 0 2  2 0 0 2  2 0 0  2 0 2 2 2  1 0 1", "utmm"),                            # fixed by ca060a6
+    ("b_corrseq 1 3 0 0  3 0 0 2  2 0 0  2 0 2 2 2  1 1 1  2  2 1 1 1  2 1 0 1", "ukf_seq"),     # fixed by 5117f2c
 ]
 
 
@@ -442,6 +443,43 @@ def gen_utmm(ctx):
 
 
 GENERATORS.append(gen_utmm)
+
+
+def gen_sequences(ctx):
+    """call sequences on ONE object: noise samples with sizes going up and down; corrections succeeding and failing in turn"""
+    out = []
+    g = ctx.gen("seq")
+    num_seqs = [[3, 1, 0, 2], [0, 1, 2, 3], [3, 2, 1, 0], [1], [5, 1, 5, 0, 4], [2, 2, 2]]
+    for _ in range(ctx.n(6, 40)):
+        num_seqs.append([g.r.randint(0, 6) for _ in range(g.r.randint(2, 8))])
+    for d in (1, 2, 3):
+        for ns in num_seqs:
+            out.append(("b_wna_seq %d %d %s" % (d, len(ns), " ".join(map(str, ns))), "wna_seq"))
+    for (n, comps) in ((4, [0, 2]), (4, [1]), (6, [0, 2, 4]), (2, [0, 1]), (5, [4, 0, 2, 1])):
+        for ns in num_seqs:
+            out.append(("b_lm_seq %d %d %s %d %s" % (n, len(comps), " ".join(map(str, comps)), len(ns), " ".join(map(str, ns))), "lm_seq"))
+    alphabet = [(2, 1, 1, 1), (1, 1, 1, 1), (2, 0, 1, 1), (2, 1, 0, 1), (2, 1, 1, 0), (1, 1, 0, 1), (3, 1, 1, 1)]
+    seqs = [[a] for a in alphabet] + [[a, b] for a in alphabet for b in alphabet]
+    if ctx.tier == "thorough":
+        seqs += [[a, b, c] for a in alphabet for b in alphabet for c in alphabet]
+    for _ in range(ctx.n(60, 400)):
+        seqs.append([g.r.choice(alphabet) for _ in range(g.r.randint(3, 7))])
+    configs = [((3, 0, 0), (2, 0, 0)), ((2, 1, 0), (1, 1, 0))]
+    for (dl, dc, q), (ml, mc, mq) in configs:
+        tot, dof = dim_of(ml, mc, mq), dcov_of(ml, mc, mq)
+        for kind in (0, 1, 2):
+            if kind == 2:
+                M = 2 * tot
+                meas = "%d %d %d %d  %d %d %d  %d 0 %d %d %d  1 1 1  %d 1" % (dl, dc, q, tot, M, 0, 0, M, M, M, tot, tot)
+            else:
+                meas = "%d %d %d %d  %d %d %d  %d 0 %d %d %d  1 1 1" % (dl, dc, q, dof, ml, mc, mq, tot, dof, tot, dof)
+            for sq in seqs:
+                steps = "  ".join("%d %d %d %d" % st for st in sq)
+                out.append(("b_corrseq %d %d %d %d  %s  %d  %s" % (kind, dl, dc, q, meas, len(sq), steps), ("ukf_seq", "ukf_seq", "sukf_seq")[kind]))
+    return out
+
+
+GENERATORS.append(gen_sequences)
 
 
 # --------------------------------------------------------------------------- running
@@ -513,6 +551,11 @@ def crash_detail(log):
 def finding_key(line, group):
     """stable key of the violation class a valid-but-aborting configuration belongs to"""
     t = line.split()
+    if t[0] == "b_corrseq":
+        kind, dc, q, mc, mq = int(t[1]), int(t[3]), int(t[4]), int(t[10]), int(t[11])
+        if kind in (0, 1):
+            return "ukf-quaternion-state" if (q and dc > 0) else ("ukf-quaternion-measurement" if (mq and mc > 0) else "ukf-call-sequence:abort-on-valid")
+        return "sukf-quaternion-state" if (q and dc > 0) else "sukf-call-sequence:abort-on-valid"
     if t[0] == "b_ukfc":
         kind, q = int(t[1]), int(t[5])
         dc = int(t[4])
@@ -632,6 +675,17 @@ def branch_tags(line, group, hk, hp):
                 tags.append("getLikelihood:not available")
         elif group == "kf":
             tags.append("KF:update" if int(t[12]) else "KF:no measurement -> copy")
+        elif group in ("ukf_seq", "sukf_seq"):
+            toks = hp.split()
+            prev_ok = False
+            for x in toks:
+                f = x.split(":")
+                ok = f[2] == "1"
+                if prev_ok and not ok:
+                    tags.append("call sequence:likelihood withdrawn after a failed correction")
+                elif prev_ok and ok:
+                    tags.append("call sequence:likelihood available again / still")
+                prev_ok = ok
         elif group == "gmaug":
             r1, c1, r2, c2 = int(t[5]), int(t[6]), int(t[7]), int(t[8])
             tags.append("augmentWithNoise:non-square -> false" if r1 != c1 else "augmentWithNoise:augmented")
@@ -696,7 +750,9 @@ ENTRY = {
     "gmacc": "GaussianMixture accessors", "psacc": "ParticleSet accessors", "gmresize": "GaussianMixture::resize", "psresize": "ParticleSet::resize",
     "psadd": "ParticleSet::operator+=", "rs": "Resampling::resample", "rwp": "ResamplingWithPrior::resample", "ee": "EstimatesExtraction::extract",
     "ee_perturbed": "EstimatesExtraction::extract", "eefn": "EstimatesExtraction::mean/mode/map", "gpfmove": "GPFCorrection (moved) ::sampleFromProposal",
-    "gpfsample": "GPFCorrection::sampleFromProposal",
+    "gpfsample": "GPFCorrection::sampleFromProposal", "wna_seq": "WhiteNoiseAcceleration::getNoiseSample/motion (call sequence on one object)",
+    "lm_seq": "LinearModel::getNoiseSample (call sequence on one object)", "ukf_seq": "UKFCorrection::correct/getLikelihood (call sequence on one object)",
+    "sukf_seq": "SUKFCorrection::correct/getLikelihood (call sequence on one object)",
 }
 
 
